@@ -238,14 +238,30 @@ def run_both(prop, cases, impl_argv, model_argv, tag='main', timeout=600, superv
             procs.append((k, side, subprocess.Popen(argv, stdout=out, stderr=err, env=ENV, preexec_fn=_limits), out, err))
     info = {'shards': n, 'crashes': []}
     deadline = time.time() + timeout
-    for k, side, p, out, err in procs:
-        try:
-            rc = p.wait(timeout=max(1, deadline - time.time()))
-        except subprocess.TimeoutExpired:
-            p.kill(); rc = -9
-        out.close(); err.close()
-        if rc != 0:
-            info['crashes'].append((k, side, rc))
+    # a supervised harness prints one flushed line per case: a shard whose output has not grown for a few per-case limits is
+    # hung on one case and is killed at once (it is re-run case by case below) instead of holding the whole run until the deadline
+    last = {}
+    live = list(procs)
+    while live:
+        now = time.time()
+        for ent in list(live):
+            k, side, p, out, err = ent
+            rc = p.poll()
+            if rc is None and now > deadline:
+                p.kill(); p.wait(); rc = -9
+            if rc is None and supervise is not None and side == 'impl':
+                sz = os.path.getsize(out.name)
+                if last.get(k, (None, 0))[0] != sz:
+                    last[k] = (sz, now)
+                elif now - last[k][1] > 3 * supervise:
+                    p.kill(); p.wait(); rc = -9
+            if rc is not None:
+                live.remove(ent)
+                out.close(); err.close()
+                if rc != 0:
+                    info['crashes'].append((k, side, rc))
+        if live:
+            time.sleep(0.05)
     res = {'impl': [None] * len(cases), 'model': [None] * len(cases)}
     info['supervised'] = []
     for k in range(n):
